@@ -68,6 +68,16 @@ def findings():
           "the exact trace runs Lanczos on all columns of the identity in one batch and a column that has converged divides 0/0", lanczos_nan,
           "slogdet(PSD(Dense([[2,0,0],[0,2,1],[0,1,2]])), Lanczos(max_iters=3), Exact())", "(1, log 6 = 1.7918)")
 
+    def branch_mix():
+        import cola.linalg as cl
+        M = np.array([[-0.5, 1 + 1j], [0.5 - 0.5j, -1.5]], dtype=np.complex64)   # eigenvalues 0.118, -2.118; det = -1/4
+        t = complex(cl.trace(cl.log(ops.Dense(M), Arnoldi(max_iters=2)), Exact()))
+        return not abs(np.exp(t) - (-0.25)) < 1e-3, t
+    probe("arnoldi_log_branch_cut_mixed", "trace(log(A, Arnoldi), Exact) of a complex operator with a negative real eigenvalue is not log det A: every column of the identity runs its own "
+          "Arnoldi factorisation, rounding puts the eigenvalue on either side of the branch cut of log, and the diagonal entries are summed with +i*pi and -i*pi mixed "
+          "(slogdet then returns a phase that is not the determinant's)", branch_mix,
+          "trace(log(Dense(complex64 [[-0.5,1+1j],[0.5-0.5j,-1.5]]), Arnoldi(max_iters=2)), Exact())", "log(1/4) +- i*pi")
+
     def kronpow():
         s, l = slogdet(ops.Kronecker(ops.Diagonal(np.array([-1.])), ops.Identity((3, 3), np.float64)))
         s2, l2 = slogdet(ops.Kronecker(ops.Diagonal(np.array([1j, 1.])), ops.Diagonal(np.array([2., 1j, 1.]))))
@@ -199,7 +209,7 @@ def run(ctx):
     n_struct = ctx.budget(420, 5000)
     n_kry = ctx.budget(80, 800)
     stats = dict(skipped_oracle_hyp=0, expected_assert=0, flag_attributed=0,
-                 oracle_verified=0, krylov_cases=0, krylov_complex_trace_skipped=0, krylov_complex_trace_oracle_verified=0, krylov_hyp_failed=0)
+                 oracle_verified=0, krylov_cases=0, arnoldi_branch_cut_skipped=0, krylov_complex_trace_skipped=0, krylov_complex_trace_oracle_verified=0, krylov_hyp_failed=0)
     mism = []
     cases, obs = [], []
     tries = 0
@@ -270,6 +280,10 @@ def run(ctx):
         if kry:
             stats["krylov_cases"] += 1
             kd = [d for d in C.decs(o["model"]) if d["which"] == "kry"]
+            if "arnoldi_log_branch_cut_mixed" in present and c["alg"] == "arnoldi" and any(d["branch_cut"] for d in kd):
+                stats["arnoldi_branch_cut_skipped"] += 1   # region spoiled by a recorded flag: not generated while it is present
+                rec["kskip"] = True
+                continue
             hyp_bad = [d for d in kd if not (np.isfinite(d["kt"]) and abs(np.exp(d["kt"]) - np.linalg.det(d["dense"].astype(np.complex128))) <= 1e-6 * abs(np.linalg.det(d["dense"].astype(np.complex128))) * (1e3 if f32 else 1))]
             if hyp_bad:
                 # cola's own trace(log(A, Lanczos|Arnoldi)) is not the log-determinant of the node: the property fails here unless a recorded flag explains it
